@@ -70,5 +70,11 @@ def core_alphabet():
         append([from_("u")]),
     ]
 
+def bad(kind, text): return {"op": "bad", "kind": kind, "text": text}
+def at(step, *positions):
+    """restrict a step to the given (1-based) positions of the pipeline"""
+    s = dict(step); s["at"] = list(positions); return s
+
 def model(first, steps, depth):
+    steps = [dict(s, at=s.get("at", [])) for s in steps]
     return {"first": first, "steps": steps, "depth": depth}
